@@ -84,11 +84,16 @@ def gen_mixfit(g, kind=None, thorough=False):
         D = int(g.choice([2, 3, 4, 5, 6, 7, 8, 9, 10]))
     if g.coin(0.03):
         K = int(g.choice([5, 6]))
+    if g.coin(0.03):
+        D = int(g.choice([9, 10, 12]))      # more than 8 channels / features
     integration = kind in models.INTEGRATION
     opts = {}
     aligner = None
+    many_classes = integration and g.coin(0.006)
+    if many_classes:
+        K = 7          # built-in alignment: K! = 5040 candidate permutations
     if kind == 'cbmm':
-        D, K = int(g.choice([2, 3, 3, 4])), 2
+        D, K = int(g.choice([2, 3, 3, 4, 5])), 2
     if integration:
         F = int(g.choice([1, 2, 3]))
     else:
@@ -120,6 +125,12 @@ def gen_mixfit(g, kind=None, thorough=False):
         N = int(g.rng.randint(4200, 6000)) // max(F, 1)
     if aligner is not None and kind != 'cbmm' and g.coin(0.05):
         N = int(g.rng.randint(2000, 2600))  # long signals with inline aligner
+    if many_classes:
+        N = min(N, 40)
+    huge = kind == 'gmm' and F == 0 and g.coin(0.02)
+    if huge:
+        # more than 2**22 elements in the (K, N, D) temporaries
+        N = int(2 ** 22 // (K * D) + g.rng.randint(1000, 50000))
     a = {'op': 'mixfit', 'kind': kind, 'K': K, 'D': D, 'F': F, 'N': N, 'E': E}
     if kind == 'cwmm' and g.coin(0.3):
         hi = float(g.choice([30.0, 300.0, 640.0]))
@@ -150,6 +161,8 @@ def gen_mixfit(g, kind=None, thorough=False):
         # digital silence (not for the Bingham models: a zero vector is not a
         # point of the sphere and the moment equation has no solution then)
         a['obs']['zero_frames'] = int(g.choice([1, 2, 3]))
+    if huge:
+        a['obs']['offset'] = float(g.choice([1e3, 1e4, 3e5]))
     if kind == 'gcacgmm':
         a['emb'] = _mk(g, 'rclusters', lead + [N, E], K=K,
                        scale=float(g.choice([1.0, 1.0, 1e-2, 30.0])),
@@ -204,8 +217,9 @@ def gen_mixfit(g, kind=None, thorough=False):
             else:
                 a['fixed_covariance'] = _mk(g, 'uniform', glead + [K], low=0.3, high=2.0)
     if integration:
-        if g.coin(0.3):
+        if g.coin(0.3) or many_classes:
             opts['inline_permutation_alignment'] = True
+
         if g.coin(0.3):
             opts['spatial_weight'] = float(g.choice([0.5, 1.0, 2.0]))
             opts['spectral_weight'] = float(g.choice([0.5, 1.0, 2.0]))
@@ -225,6 +239,10 @@ def gen_mixfit(g, kind=None, thorough=False):
         a['aligner'] = aligner
     a['iterations'] = int(g.rng.randint(1, 9)) if kind != 'cbmm' \
         else int(g.choice([1, 2]))
+    if huge:
+        a['iterations'] = int(g.choice([1, 2]))
+    if many_classes:
+        a['iterations'] = min(a['iterations'], 3)
     a['fault'] = None
     # fit_predict = fit, then the Bayes posterior of the returned model
     a['method'] = 'fit_predict' if g.coin(0.2) else 'fit'
